@@ -552,7 +552,7 @@ def run():
     rest = [i for i in range(len(tests)) if i not in set(directed)]
     hook_idx = directed + ck.rng.sample(rest, min(len(rest), ck.n(400, 4000)))
     hook_ans = harness("log", [{"src": tests[i]["src"], "target": "sql.sqlite", "want": [], "msg_prefix": "verif:"} for i in hook_idx])
-    repaired = bool(dinfo.get("col_names_reserved"))
+    repaired = bool(dinfo.get("col_names_reserved")) if "error" not in dinfo else None     # None: ask the hook
 
     def opt(x):
         return "None" if x is None else "(Some %s)" % coq_codes(x)
@@ -581,7 +581,7 @@ def run():
 
     ev_cases = {}      # coq expression -> (group, expected python value, site, program)   (deduplicated: most events repeat)
     n_events = 0
-    WANT = ("namegen", "namegen-draw", "namegen-state", "pq-names", "ensure_column_name", "ensure_column_name_result", "select_item", "select_items", "anchor_split")
+    WANT = ("load_names", "namegen", "namegen-draw", "namegen-state", "pq-names", "ensure_column_name", "ensure_column_name_result", "select_item", "select_items", "anchor_split")
     for i, a in zip(hook_idx, hook_ans):
         src_i = tests[i]["src"]
         bad = lambda what, **kw: ck.violation(what, dict({"kind": "namegen-hook", "src": src_i}, **kw))
@@ -606,6 +606,8 @@ def run():
         reserved = pqn[0]["reserved"]
         if states[0].get("reserved") != reserved:
             bad("the reserved set assign_names starts with differs from the final one", start=states[0].get("reserved"), final=reserved)
+        if repaired is None:
+            repaired = "reserved_columns" in pqn[0]
         if repaired and "reserved_columns" not in pqn[0]:
             bad("the source reserves column names but verif:pq-names does not report them"); continue
         creserved = pqn[0]["reserved_columns"] if repaired else []
@@ -642,7 +644,7 @@ def run():
             if h == "namegen-draw" and e["site"] == "gen_table_name":
                 run_start = pos_draws[k] if run_start is None else run_start
                 if e["accepted"]:
-                    expr = "gen_table_name lower_ascii table_prefix %s %d" % (lst(reserved), run_start)
+                    expr = "gen_table_name lower_ascii @TP@ %s %d" % (lst(reserved), run_start)
                     ev_cases.setdefault(expr, ("pair", (e["name"], pos_draws[k] + 1), "gen_table_name", src_i))
                     ck.stat("namegen-model", "gen_table_name/" + ("first" if run_start == pos_draws[k] else "skipped-reserved"))
                     run_start = None
@@ -658,7 +660,7 @@ def run():
             for j, (_, e) in enumerate(an):
                 if e["used"] != sorted(news[:j]):
                     bad("assign_names step %d: used %s is not the set of names assigned before %s" % (j, e["used"], sorted(news[:j])), event=e)
-            expr = "assign_names lower_ascii table_prefix %s %s [] %d" % (lst(reserved), optlst(olds), idx_of(states[0]["table_gen"], tp))
+            expr = "assign_names lower_ascii @TP@ %s %s [] %d" % (lst(reserved), optlst(olds), idx_of(states[0]["table_gen"], tp))
             ev_cases.setdefault(expr, ("listpair", (news, idx_of(states[1]["table_gen"], tp)), "assign_names(list)", src_i))
             ck.stat("namegen-model", "assign_names(list)/%d decls" % min(len(an), 6))
         # ---- RelVarNameAssigner: each step with its logged state; each scope (one atomic pipeline) as one model run
@@ -667,7 +669,7 @@ def run():
             if not (h == "namegen" and e["site"] == "relvar"):
                 continue
             n_events += 1
-            expr = "regen_r %d lower_ascii table_prefix %s %s %s %d" % (len(e["used"]) + 2, lst(reserved), lst(e["used"]), opt(e["old"]), idx_of(e["gen_before"], tp))
+            expr = "regen_r %d lower_ascii @TP@ %s %s %s %d" % (len(e["used"]) + 2, lst(reserved), lst(e["used"]), opt(e["old"]), idx_of(e["gen_before"], tp))
             ev_cases.setdefault(expr, ("pair", (e["new"], idx_of(e["gen_after"], tp)), "relvar", src_i))
             ck.stat("namegen-model", "relvar/" + ("kept" if e["new"] == e["old"] else "generated"))
             if e["new"] != e["old"] and (e["new"].lower() in reserved or e["new"] in e["used"]):
@@ -686,7 +688,7 @@ def run():
             chained = all(sc[j]["gen_before"] == sc[j - 1]["gen_after"] for j in range(1, len(sc)))
             ck.stat("namegen-model", "relvar(scope)/" + ("contiguous" if chained else "interleaved with an inner pipeline"))
             if chained:
-                expr = "assign_names lower_ascii table_prefix %s %s [] %d" % (lst(reserved), optlst([x["old"] for x in sc]), idx_of(sc[0]["gen_before"], tp))
+                expr = "assign_names lower_ascii @TP@ %s %s [] %d" % (lst(reserved), optlst([x["old"] for x in sc]), idx_of(sc[0]["gen_before"], tp))
                 ev_cases.setdefault(expr, ("listpair", ([x["new"] for x in sc], idx_of(sc[-1]["gen_after"], tp)), "relvar(scope)", src_i))
         # ---- columns: ensure_column_name and the anchor_split step with the logged state; anchor_split as one model run
         pending = None
@@ -698,14 +700,14 @@ def run():
                 if pending is None or pending["cid"] != e["cid"]:
                     bad("ensure_column_name_result without its call"); continue
                 res = None if pending["decl"] == "wildcard" else e["name_after"]
-                expr = "ensure_column_name lower_ascii col_prefix %s %s %s %d" % (lst(creserved), decl_term(pending["decl"]), opt(pending["name_before"]), idx_of(pending["gen_before"], cp))
+                expr = "ensure_column_name lower_ascii @CP@ %s %s %s %d" % (lst(creserved), decl_term(pending["decl"]), opt(pending["name_before"]), idx_of(pending["gen_before"], cp))
                 ev_cases.setdefault(expr, ("optpair", (res, idx_of(e["gen_after"], cp)), "ensure_column_name", src_i))
                 pending = None
             elif h == "namegen" and e["site"] == "anchor_split":
                 n_events += 1
                 if "gen_before" not in e:
                     bad("verif:namegen events carry no generator state (hooks/namegen-state.diff not applied?)"); break
-                expr = "split_step lower_ascii col_prefix %s %s %s %d" % (lst(creserved), lst(e["used"]), opt(e["old"]), idx_of(e["gen_before"], cp))
+                expr = "split_step lower_ascii @CP@ %s %s %s %d" % (lst(creserved), lst(e["used"]), opt(e["old"]), idx_of(e["gen_before"], cp))
                 ev_cases.setdefault(expr, ("optpair", (e["new"], idx_of(e["gen_after"], cp)), "anchor_split", src_i))
                 ck.stat("namegen-model", "anchor_split/" + ("kept" if e["new"] == e["old"] else "regenerated"))
             elif h == "anchor_split":
@@ -716,9 +718,57 @@ def run():
                 if len(set(e["in"]["cols_at_split"])) != len(decls):
                     ck.stat("namegen-model", "anchor_split(list)/same cid twice: step level only"); continue
                 cols = "[" + "; ".join("(%s, %s)" % (d, opt(b)) for d, b in zip(decls, e["in"]["names"])) + "]"
-                expr = "split_names lower_ascii col_prefix %s %s [] %d" % (lst(creserved), cols, idx_of(e["in"]["next_name"], cp))
+                expr = "split_names lower_ascii @CP@ %s %s [] %d" % (lst(creserved), cols, idx_of(e["in"]["next_name"], cp))
                 ev_cases.setdefault(expr, ("optlistpair", ([c_["name"] for c_ in e["mid"]["new_columns"]], idx_of(e["mid"]["next_name"], cp)), "anchor_split(list)", src_i))
                 ck.stat("namegen-model", "anchor_split(list)/%d cols" % min(len(decls), 8))
+        # ---- which names reach the column-name places (Model/NameGen.v run_ops; theorem column_names_context_invariant)
+        # (a) the decidable hypothesis of the case-insensitive theorem on every real anchor_split call
+        # (b) every name the real context ends with (pq-names: column_names, columns of the relation instances) is a name of the
+        #     RQ (lower-cased form reserved) or a generated name
+        # (c) the whole compilation as ONE trace of operations: RQ names loaded, then every standalone ensure_column_name, every
+        #     anchor_split, every invented alias in the order of the events; the model must end in the same generator state,
+        #     produce the same names at every split, and hold every name the real context holds
+        final_names = [c_["name"] for c_ in pqn[0]["columns"] if c_["name"] is not None]
+        final_names += [c_["name"] for ins in pqn[0]["instances"] for c_ in ins["columns"] if c_["name"] not in (None, "*")]
+        final_names = sorted(set(final_names))
+        expr = "forallb (name_class_ok lower_ascii @CP@ %s) %s" % (lst(creserved), lst(final_names))
+        ev_cases.setdefault(expr, ("bool", True, "final context (pq-names)", src_i))
+        for h, e in evs:
+            if h == "anchor_split":
+                decls = [decl_term(d) for d in e["in"]["decls"]]
+                if all(d is not None for d in decls):
+                    cols = "[" + "; ".join("(%s, %s)" % (d, opt(b)) for d, b in zip(decls, e["in"]["names"])) + "]"
+                    ev_cases.setdefault("incoming_ok lower_ascii @CP@ %s %s" % (lst(creserved), cols), ("bool", True, "anchor_split(incoming)", src_i))
+            elif h == "load_names":
+                for oc in e["output_cols"]:
+                    nm = oc.get("single") if isinstance(oc, dict) else None
+                    if nm is not None and repaired and nm.lower() not in creserved:
+                        bad("load_names brings the name %r into the context, which is not among the reserved column names" % nm, reserved_columns=creserved)
+        if repaired:
+            rq_names = [n for n in final_names if n.lower() in creserved]
+            ops = ["OpLoad %s" % lst(rq_names)]
+            exp_splits, last_gen = [], 0
+            kinds = [h for h, _ in evs]
+            for k, (h, e) in enumerate(evs):
+                if h in ("ensure_column_name_result", "select_item") or (h == "namegen" and e["site"] == "anchor_split"):
+                    g = idx_of(e.get("gen_after"), cp)
+                    last_gen = g if g is not None else last_gen
+                if h == "ensure_column_name":
+                    nxt = next((evs[j] for j in range(k + 2, len(evs)) if evs[j][0] in ("namegen", "ensure_column_name", "anchor_split", "select_item")), None)
+                    if not (nxt and nxt[0] == "namegen" and nxt[1]["site"] == "anchor_split"):
+                        ops.append("OpEnsure %s %s" % (decl_term(e["decl"]), opt(e["name_before"])))
+                elif h == "anchor_split":
+                    decls = [decl_term(d) for d in e["in"]["decls"]]
+                    if any(d is None for d in decls) or len(set(e["in"]["cols_at_split"])) != len(decls):
+                        ops = None; break
+                    ops.append("OpSplit [%s]" % "; ".join("(%s, %s)" % (d, opt(b)) for d, b in zip(decls, e["in"]["names"])))
+                    exp_splits.append([c_["name"] for c_ in e["mid"]["new_columns"]])
+                elif h == "select_item" and e["expected"] is None and e["item"] != "unnamed":
+                    ops.append("OpAlias")
+            if ops is not None and len(ops) <= 60:
+                expr = "run_ops lower_ascii @CP@ %s [] 0 [%s]" % (lst(creserved), "; ".join(ops))
+                ev_cases.setdefault(expr, ("trace", (exp_splits, last_gen, final_names), "column trace", src_i))
+                ck.stat("namegen-model", "column trace/%d ops" % min(len(ops), 12))
         # ---- translate_select_item's invented aliases: `used` = column_names.values() at that moment = what the enclosing
         # translate_select_items call saw at its start (its event follows those of its items) + the items named before
         group = []
@@ -730,22 +780,24 @@ def run():
                 for it in group:
                     if it["expected"] is None and it["item"] != "unnamed":
                         n_events += 1
-                        expr = "select_item_alias lower_ascii col_prefix %s %s %d" % (lst(creserved), lst(sorted(names_now.values())), idx_of(it["gen_before"], cp))
+                        expr = "select_item_alias lower_ascii @CP@ %s %s %d" % (lst(creserved), lst(sorted(names_now.values())), idx_of(it["gen_before"], cp))
                         ev_cases.setdefault(expr, ("pair", (it["item"]["alias"], idx_of(it["gen_after"], cp)), "select_item", src_i))
                         ck.stat("namegen-model", "select_item/alias" + ("" if it["item"]["alias"] == it["gen_before"] else "-regenerated"))
                     if it["name_after"] is not None:
                         names_now[it["cid"]] = it["name_after"]
                 group = []
     try:
-        HN = ("From Coq Require Import List NArith.\nFrom PV Require Import Lib.ListX Model.Ident Model.NameGen Gen.GenIdentDialect.\n"
-              "Import ListNotations.\nLocal Open Scope N_scope.\n")
+        # prefixes as literals, no Gen import: the stream must keep searching when the translator failed closed
+        HN = ("From Coq Require Import List NArith.\nFrom PV Require Import Lib.ListX Model.Ident Model.NameGen.\n"
+              "Import ListNotations.\nLocal Open Scope N_scope.\n"
+              "Definition cpfx : list N := %s.\nDefinition tpfx : list N := %s.\n" % (coq_codes(cp), coq_codes(tp)))
         items = [(expr,) + v for expr, v in ev_cases.items()]
         B = 40
         batches = {}
         for it in items:
             batches.setdefault(it[1], []).append(it)
         blist = [(g, its[k:k + B]) for g, its in batches.items() for k in range(0, len(its), B)]
-        vals = coq_eval(HN, ["[" + "; ".join(x[0] for x in its) + "]" for _, its in blist])
+        vals = coq_eval(HN, ["[" + "; ".join(x[0].replace("@CP@", "cpfx").replace("@TP@", "tpfx") for x in its) + "]" for _, its in blist])
 
         def name_of(v):
             return s_of(v[1]) if isinstance(v, tuple) and v[0] == "Some" else None
@@ -765,6 +817,25 @@ def run():
         for (g, its), vs in zip(blist, vals):
             for (expr, _, exp, site, src), v in zip(its, vs):
                 ck.count("namegen-model", expr)
+                if g == "bool":
+                    if v is not True:
+                        ck.violation("%s: a name that reaches the column-name places is neither a reserved (RQ) name nor a generated one" % site,
+                                     {"kind": "namegen-model", "site": site, "expr": expr, "src": src})
+                    continue
+                if g == "trace":
+                    if not (isinstance(v, tuple) and v[0] == "Some"):
+                        ck.violation("column trace: the model run fails (an operation mentions a name the context does not hold)", {"kind": "namegen-model", "site": site, "expr": expr, "src": src})
+                        continue
+                    if len(v[1]) == 3:
+                        known, n1, splits = v[1]
+                    else:
+                        (known, n1), splits = v[1]
+                    got_splits = [[name_of(y) for y in sp] for sp in splits]
+                    known = {s_of(x) for x in known}
+                    if got_splits != exp[0] or n1 != exp[1] or not set(exp[2]) <= known:
+                        ck.violation("column trace: model %r / state %r, prqlc %r / state %r; names of the real context missing in the model: %s" % (got_splits, n1, exp[0], exp[1], sorted(set(exp[2]) - known)),
+                                     {"kind": "namegen-model", "site": site, "expr": expr, "src": src})
+                    continue
                 got = view(g, v)
                 want = (exp[0], exp[1]) if g in ("pair", "optpair") else (list(exp[0]), exp[1])
                 if got != want:
